@@ -49,6 +49,8 @@ func (o respOp) String() string {
 		return "AddError"
 	case "copy":
 		return fmt.Sprintf("io.Copy(Resp, plain reader of %q)", o.Data)
+	case "stream":
+		return fmt.Sprintf("Stream(%d, application/octet-stream, reader of %q)", o.Code, o.Data)
 	case "nested":
 		return fmt.Sprintf("WrapH(inner rux router: SetStatus(%d); Write(%q))", o.Code, o.Data)
 	case "redispatch":
@@ -101,6 +103,8 @@ func (o respOp) apply(c *rux.Context) {
 		c.NoContent()
 	case "adderror":
 		c.AddError(errors.New("recorded error"))
+	case "stream":
+		c.Stream(o.Code, "application/octet-stream", strings.NewReader(o.Data))
 	case "copy":
 		// io.Copy from a reader WITHOUT WriteTo: uses the destination's ReadFrom if it has one
 		_, _ = io.Copy(c.Resp, io.LimitReader(strings.NewReader(o.Data), int64(len(o.Data))))
@@ -236,6 +240,14 @@ func (m *respModel) step(o respOp) {
 		if len(o.Data) > 0 {
 			m.write([]byte(o.Data))
 		}
+	case "stream":
+		// the documented helper: status, Content-Type, then the reader's bytes (none for an empty source:
+		// the header is then committed where the statement puts it, not by the helper)
+		m.hasCT = true
+		m.status(o.Code)
+		if len(o.Data) > 0 && m.write([]byte(o.Data)) {
+			m.errRec = true // Stream records the copy error in the context
+		}
 	case "nested":
 		// the inner router works on THIS request's (lazy) response writer: its status reaches us as a
 		// status setting, its body as a write; its own end-of-dispatch "commit" is again only a
@@ -367,7 +379,7 @@ func (p c08Prog) nontrivial() bool {
 			if committed {
 				return true
 			}
-		case "error", "redirect", "text", "json":
+		case "error", "redirect", "text", "json", "stream":
 			if committed {
 				return true
 			}
@@ -378,7 +390,7 @@ func (p c08Prog) nontrivial() bool {
 }
 
 func runC08(e *Env) {
-	e.Rule = "programs of response operations {SetStatus(code) for code in -1,0,100,101,200,201,204,301,404,500,599; SetHeader; Resp.Write incl. empty; WriteString; Flush; http.Error; http.Redirect; Text; JSON; NoContent; AddError; io.Copy from a reader without WriteTo; a re-dispatch of the context through HandleContext in single-handler chains} distributed over the before-Next and after-Next phases of a 1..4 handler chain (global middleware, route middleware, main), GET/POST, with or without an OnError hook (doing nothing / status / status+body), on a recording writer (with or without io.ReaderFrom, like net/http's) with a fault plan (n-th write accepts k bytes and errors); plus ALL sequences of <= 4 operations over a 9-operation alphabet in a single handler under 4 fault plans; plus chains that do nothing. Observed: the ordered call log WriteHeader/Write/Flush at the underlying writer, body bytes, Context.Length() after dispatch. Oracle: reference state machine unset -> recorded -> committed. Non-trivial: contains a flush, a zero-length write, a failing write, or a status change after the commit; distinct by program."
+	e.Rule = "programs of response operations {SetStatus(code) for code in -1,0,100,101,200,201,204,301,404,500,599; SetHeader; Resp.Write incl. empty; WriteString; Flush; http.Error; http.Redirect; Text; JSON; NoContent; AddError; io.Copy from a reader without WriteTo; a re-dispatch of the context through HandleContext in single-handler chains} distributed over the before-Next and after-Next phases of a 1..4 handler chain (global middleware, route middleware, main), GET/POST, with or without an OnError hook (doing nothing / status / status+body), on a recording writer (with or without io.ReaderFrom, like net/http's) with a fault plan (n-th write accepts k bytes and errors); plus ALL sequences of <= 4 operations over a 9-operation alphabet in a single handler under 4 fault plans; plus chains that do nothing. Observed: the ordered call log WriteHeader/Write/Flush at the underlying writer, body bytes, Context.Length() after dispatch. Oracle: reference state machine unset -> recorded -> committed. Non-trivial: contains a flush, a zero-length write, a failing write, or a status change after the commit; distinct by program. The operation alphabet also has the Stream helper (status, Content-Type, bytes of a reader that may be empty)."
 	e.Assumptions = []string{
 		"helpers are expanded into the primitives their documentation promises (http.Error = status + message line, Text = status + bytes, JSON = status + encoded value + newline, NoContent = status 204)",
 		"writes that may fail go through Resp.Write (WriteString/Text panic on a write error by contract and are only used without a fault plan)",
@@ -447,8 +459,11 @@ func runC08(e *Env) {
 				case x < 16:
 					o = respOp{Kind: "redirect", Code: pick(r, []int{301, 302, 307})}
 				case x < 17:
-					o = respOp{Kind: pick(r, []string{"nocontent", "adderror", "copy"}), Data: pick(r, []string{"", "c", "copied"})}
-					if o.Kind != "copy" {
+					o = respOp{Kind: pick(r, []string{"nocontent", "adderror", "copy", "stream"}), Data: pick(r, []string{"", "c", "copied"})}
+					if o.Kind == "stream" {
+						o.Code = pick(r, codes)
+						t.Count("programs.stream_helper", 1)
+					} else if o.Kind != "copy" {
 						o.Data = ""
 					}
 				case x < 18 && chance(r, 1, 3) && !fault:
